@@ -29,7 +29,7 @@ import (
 func init() {
 	register(stream{
 		name: "sealed",
-		rule: "(cbor) random IPLD trees with canonically ordered maps: dagcbor.Encode versus the model's encoder, and decode-then-recompare versus the model's accept on canonical bytes and on single-tweak re-encodings; (sealed) real delegations and invocations sealed with Ed25519, secp256k1, P-256 and RSA keys: the CID of ToSealed / ToSealedWriter / FromSealed / FromSealedReader (generic and typed) against an independent CIDv1(dag-cbor, sha2-256) of the bytes; every data-preserving re-encoding of each sealed token — a wider length prefix at each head, an indefinite-length form of each string/list/map, swapped map entries, an extra element in the outer list — and key-less signature re-encodings (ECDSA s ↦ n−s, a trailing byte after the DER signature), each offered to all six unsealing functions. Non-trivial = re-encoded or mutated inputs. Distinct = distinct protocol lines.",
+		rule: "(cbor) random IPLD trees with canonically ordered maps: dagcbor.Encode versus the model's encoder, and decode-then-recompare versus the model's accept on canonical bytes and on single-tweak re-encodings; (sealed) real delegations and invocations sealed with Ed25519, secp256k1, P-256 and RSA keys: the CID of ToSealed / ToSealedWriter / FromSealed / FromSealedReader (generic and typed) against an independent CIDv1(dag-cbor, sha2-256) of the bytes; every data-preserving re-encoding of each sealed token — a wider length prefix at each head, an indefinite-length form of each string/list/map, swapped map entries, an extra element in the outer list — and key-less signature re-encodings (ECDSA s ↦ n−s, a trailing byte after the DER signature), each offered to all six unsealing functions. Tokens with one field of 4095 … 300000 bytes through every sealing and unsealing API. Non-trivial = re-encoded or mutated inputs. Distinct = distinct protocol lines.",
 		run:  runSealedStream,
 		eval: evalSealed,
 		cmp:  cmpSealed,
@@ -233,7 +233,21 @@ func sealFixture(kind, alg string, n int) ([]byte, cid.Cid, keyed, error) {
 		if n%3 == 2 {
 			opts = append(opts, delegation.WithExpirationIn(3600e9), delegation.WithNotBeforeIn(-3600e9))
 		}
+		if n >= 100 && n < 200 {
+			opts = append(opts, delegation.WithMeta("big", bytes.Repeat([]byte{0xa5}, bigFieldSize(n))))
+		}
 		t, err := delegation.Root(k.did, aud.did, command.MustParse("/foo/bar"), pol, opts...)
+		if err != nil {
+			return nil, cid.Undef, k, err
+		}
+		b, c, err := t.ToSealed(k.priv)
+		return b, c, k, err
+	}
+	if n >= 100 && n < 200 {
+		// one large field: a string argument (a single write of that size for a streaming encoder)
+		big := strings.Repeat("x", bigFieldSize(n))
+		t, err := invocation.New(k.did, aud.did, command.MustParse("/foo"), []cid.Cid{independentCid([]byte("p1"))},
+			invocation.WithNonce([]byte("nonce-nonce-big")), invocation.WithoutInvokedAt(), invocation.WithArgument("big", big))
 		if err != nil {
 			return nil, cid.Undef, k, err
 		}
@@ -258,6 +272,12 @@ func sealFixture(kind, alg string, n int) ([]byte, cid.Cid, keyed, error) {
 	}
 	b, c, err := t.ToSealed(k.priv)
 	return b, c, k, err
+}
+
+// bigFieldSize: shapes 100… carry one field of this many bytes (around the sizes at which buffers are typically flushed)
+func bigFieldSize(n int) int {
+	sizes := []int{4095, 4096, 4097, 5000, 20000, 65536, 70000, 300000}
+	return sizes[(n-100)%len(sizes)]
 }
 
 func sealedApis(kind, alg, ns string) string {
@@ -397,6 +417,11 @@ func runSealedStream(c *ctx) error {
 	shapes := 3
 	if c.thoro {
 		shapes = 6
+	}
+	for _, kind := range []string{"dlg", "inv"} {
+		for s := 100; s < 108; s++ {
+			c.emit(fmt.Sprintf("go.sealed.apis %s ed25519 %d", kind, s), "cid-apis", true, "apis-big-field")
+		}
 	}
 	for _, kind := range []string{"dlg", "inv"} {
 		for _, alg := range algs {
